@@ -12,6 +12,8 @@ pub struct FnEntry {
     pub sig: syn::Signature,
     pub block: syn::Block,
     pub module: String,
+    /// generics of the enclosing `impl` block
+    pub impl_generics: Option<syn::Generics>,
 }
 
 #[derive(Clone)]
@@ -59,7 +61,7 @@ impl Index {
                         self.walk_items(&sub, content);
                     }
                 }
-                Item::Fn(f) => self.add_fn(module, module, None, f),
+                Item::Fn(f) => self.add_fn(module, module, None, f, None),
                 Item::Type(t) => self.aliases.push((format!("{}::{}", module, t.ident), t.clone())),
                 Item::Struct(s) => self.structs.push((format!("{}::{}", module, s.ident), s.clone())),
                 Item::Enum(e) => self.enums.push((format!("{}::{}", module, e.ident), e.clone())),
@@ -85,7 +87,7 @@ impl Index {
                                     block: Box::new(m.block.clone()),
                                 };
                                 let p = format!("{}::{}", module, tn);
-                                self.add_fn(module, &p, Some(tn.clone()), &f);
+                                self.add_fn(module, &p, Some(tn.clone()), &f, Some(im.generics.clone()));
                             }
                             ImplItem::Const(c) => self.consts.push(ConstEntry {
                                 path: format!("{}::{}::{}", module, tn, c.ident),
@@ -103,7 +105,7 @@ impl Index {
         }
     }
 
-    fn add_fn(&mut self, module: &str, prefix: &str, self_ty: Option<String>, f: &ItemFn) {
+    fn add_fn(&mut self, module: &str, prefix: &str, self_ty: Option<String>, f: &ItemFn, impl_generics: Option<syn::Generics>) {
         let path = format!("{}::{}", prefix, f.sig.ident);
         let idx = self.fns.len();
         self.fns.push(FnEntry {
@@ -112,6 +114,7 @@ impl Index {
             sig: f.sig.clone(),
             block: (*f.block).clone(),
             module: module.to_string(),
+            impl_generics,
         });
         self.fn_by_name.entry(f.sig.ident.to_string()).or_default().push(idx);
         // nested items inside the body
@@ -121,7 +124,7 @@ impl Index {
     fn walk_stmts(&mut self, module: &str, prefix: &str, stmts: &[Stmt]) {
         for s in stmts {
             if let Stmt::Item(Item::Fn(f)) = s {
-                self.add_fn(module, prefix, None, f);
+                self.add_fn(module, prefix, None, f, None);
             }
             if let Stmt::Item(Item::Const(c)) = s {
                 self.consts.push(ConstEntry {
